@@ -28,6 +28,7 @@ GRID = {"quick": "D=2; layouts: [dyn+const (0,0), dyn-only (1,0)], [const-only (
 # a layout: ordered list of (key, has_dynamic, has_constant)
 LAYOUTS_Q = [
     [((0, 0), True, True), ((1, 0), True, False)],
+    [((0, 0), True, True), ((1, 0), True, "zero")],       # the constants dict lists (1,0) explicitly with a count of 0
     [((0, 1), False, True), ((1, 0), True, True)],
     [((0, 0), True, False)],
 ]
@@ -58,7 +59,7 @@ def jobs(tier):
 
 
 def _nm(fn, D, layout):
-    s = " ".join(f"{k[0]}{k[1]}{'d' if d else ''}{'c' if c else ''}" for k, d, c in layout)
+    s = " ".join(f"{k[0]}{k[1]}{'d' if d else ''}{'z' if c == 'zero' else 'c' if c else ''}" for k, d, c in layout)
     return f"C16/{fn}/D={D},layout=[{s}]"
 
 
@@ -73,7 +74,9 @@ def _world(D, layout, tag="in"):
         if d:
             cd[k] = Atom(sint(f"c{k[0]}{k[1]}", W.pre), f"c{k[0]}{k[1]}")
             parts.append(arr.mkprod([cd[k], PA]))
-        if c:
+        if c == "zero":
+            const_dict[k] = 0          # an explicit entry "no constant fields of this type"
+        elif c:
             ccd[k] = Atom(sint(f"cc{k[0]}{k[1]}", W.pre), f"cc{k[0]}{k[1]}")
             parts.append(ccd[k])
             const_dict[k] = ccd[k].ext
